@@ -365,3 +365,25 @@ Lemma fresh_backoff_every_request_l c timeout T rs i r k st :
 Proof.
   intros _ H. split; [exact (cur_is_seq_l _ _ _ _ H)|]. intros ->. exact (proj2 (first_payload_l _ _ _ H)).
 Qed.
+
+(* ---- the classification of the returned error --------------------------------------------------------------- *)
+Lemma final_is_shutdown_iff_l sc script :
+  final_is_shutdown sc script = true <->
+  verdict_of sc script = VShutdown \/
+  (verdict_of sc script <> VOk /\ verdict_of sc script <> VPending /\
+   is_shutdown (last_err (steps_of sc script)) = true).
+Proof.
+  unfold final_is_shutdown. destruct (verdict_of sc script); unfold final_err; unfold is_shutdown; simpl;
+    split; try discriminate; try tauto; try (intros [H|(H1 & H2 & H3)]; congruence);
+    try (intros H; right; repeat split; try discriminate; exact H).
+Qed.
+
+Lemma final_is_permanent_iff_l sc script :
+  final_is_permanent sc script = true <->
+  (verdict_of sc script <> VOk /\ verdict_of sc script <> VPending /\
+   is_permanent (last_err (steps_of sc script)) = true).
+Proof.
+  unfold final_is_permanent. destruct (verdict_of sc script); unfold final_err; unfold is_permanent; simpl;
+    split; try discriminate; try tauto; try (intros (H1 & H2 & H3); congruence);
+    try (intros H; repeat split; try discriminate; exact H).
+Qed.
